@@ -371,6 +371,10 @@ def check(pid, tier, batch_seed):
         for inv in sorted(seen_inv):
             say("violation class %s: %d runs" % (inv, len(seen_inv[inv])))
         max_report = int(os.environ.get("VERIF_MAX_REPORT", "4"))
+        if max_report <= 0:
+            # triage mode: classes only, no minimisation; still never a pass
+            say("violations found (reporting disabled by VERIF_MAX_REPORT=0)")
+            exit_code = 1
         # one representative (smallest run index) per violation class
         for inv in sorted(seen_inv)[:max_report]:
             cands = seen_inv[inv]
